@@ -86,7 +86,7 @@ func CrashPart(run *report.Run, st *Setup, cases, pointsPerCase int, randomKills
 		}
 		var points []string
 		for _, ev := range ReadHookLog(hookLog) {
-			if ev.Kind == "point" {
+			if ev.Kind == "point" || ev.Kind == "event" { // plan rules count hits of both
 				points = append(points, ev.Name)
 			}
 		}
